@@ -254,11 +254,12 @@ pub fn run() -> Report {
     let parts = par_fold(
         &cases,
         || Report::new("C01", "e1"),
-        |w, _i, c, acc| {
+        |w, i, c, acc| {
             let wk = Worker::new(&root, w);
             let cn = coin(c.coin);
             let (chain, start) = build_chain(c, cn);
-            let world = World::simple(cn, &chain.blocks, 0);
+            // every other case spread over two blk files (height order leaves a file and returns to the adjacent block)
+            let world = World::laid_out(cn, &chain.blocks, 0, i);
             let spec = RunSpec::new(c.coin, "csvdump").verify(c.verify).range(start, None);
             let r = match wk.world_run(&world, &spec) {
                 Ok(r) => r,
